@@ -134,7 +134,10 @@ class NodeTrace:
         t = args.get("t") if act == "deliver" else None
         if prev is not None:
             if act == "deliver" and mine and t == "cs":
-                valid = args.get("corrupt") is None
+                # signature validity is an environment input of the model: a commitment_signed is invalid
+                # if the harness corrupted it, or as a late consequence of an earlier corrupted
+                # next_per_commitment_point; observed as "closed without validating"
+                valid = args.get("corrupt") is None and not (gone_now and not any(k == "validate_holder" for k, _ in sig))
                 need = (not prev["aw"]) and view is not None and view["aw"]
                 sync = view is not None and not view["mon"]
                 ops.append("ORecvCS %s %s %s" % (cb(valid), cb(need), cb(sync)))
@@ -156,9 +159,15 @@ class NodeTrace:
                 ops.append("OForceClose")
             elif gone_now:
                 ops.append("OForceClose" if any(k == "sign_holder" for k, _ in sig) else "OChainClose")
-            elif mine and (not prev["aw"]) and view is not None and view["aw"]:
-                # a local action built a new commitment
+            # A new commitment can be built in ANY step, for either node: the harness drains both nodes'
+            # pending message events after every action, which lets the ChannelManager free holding cells
+            # (after a reestablish, a monitor completion, ...). ORecvCS / ORecvRAA already carry that bit.
+            accounted = any(o.startswith("ORecvCS") or o.startswith("ORecvRAA") for o in ops)
+            if not accounted and (not prev["aw"]) and view is not None and view["aw"]:
                 ops.append("OCommit %s" % cb(not view["mon"]))
+            if not ops and view is not None and (not prev["mon"]) and view["mon"]:
+                # a monitor update that carries no commitment (e.g. a preimage while the claim sits in the holding cell)
+                ops.append("OMonUpdate F")
         # re-signing of the current holder commitment by the monitor after the close
         n_sh = sum(1 for k, _ in sig if k == "sign_holder")
         closes_with_sign = 1 if (gone_now and n_sh > 0) else 0
@@ -284,6 +293,8 @@ def revoke_corr(ctx, model_ok):
                            "key": "panic:" + str(rec["panic"])[:80], "last_steps": [{"act": s["act"], "node": s.get("node"), "args": s.get("args")} for s in rec["steps"][-6:]]})
         trs = [NodeTrace(n, rec["init"][n]) for n in (0, 1)]
         for st in rec["steps"]:
+            if st.get("obs") is None:      # the step panicked; rec["panic"] carries the message
+                continue
             n_steps += 1
             act_hist[st["act"]] = act_hist.get(st["act"], 0) + 1
             c = (st.get("args") or {}).get("corrupt")
@@ -360,7 +371,7 @@ def revoke_corr(ctx, model_ok):
     ctx.coverage["revoke_completed_revocations"] = rounds
     ctx.coverage["revoke_model_ops"] = sum(len(g["ops"]) for _, _, tr in traces for g in tr.groups)
     ctx.coverage["revoke_distinct_nontrivial"] = len(distinct)
-    ctx.coverage["revoke_scenarios_closed"] = sum(1 for rec in recs if any(o["view"] is None for s in rec["steps"][-1:] for o in s["obs"]))
+    ctx.coverage["revoke_scenarios_closed"] = sum(1 for rec in recs if any(o["view"] is None for s in rec["steps"][-1:] for o in (s.get("obs") or [])))
     if traces:
         rp, rec, tr = traces[0]
         ctx.samples.append({"revoke_scenario": rp, "node": tr.n, "first_ops": [o for g in tr.groups for o in g["ops"]][:12],
